@@ -241,6 +241,11 @@ func genFieldTable(p *pkgInfo) string {
 		die("fieldDefs is not a composite literal any more")
 	}
 	sb.WriteString("def fieldDefs : List FieldDef := [\n")
+	// The rows are emitted in the order of their names: the Go code reaches a row through a map keyed by the lower-cased
+	// name only (lcHdrNameToDef, filled by init from this slice; "" is the row for unknown fields), so the order of the
+	// literal means nothing as long as no two rows have the same name: theorem C18_gen_names_nodup
+	var rows []string
+	var rowNames []string
 	for i, el := range fd.Elts {
 		cl, ok := el.(*ast.CompositeLit)
 		if !ok || len(cl.Elts) != 5 {
@@ -257,12 +262,21 @@ func genFieldTable(p *pkgInfo) string {
 		}
 		rec := p.evalInt(cl.Elts[3])
 		spec := p.evalInt(cl.Elts[4])
+		rows = append(rows, fmt.Sprintf("  { name := %s, validator := %s, repeatable := %s, recMask := %d, specMask := %d }",
+			leanStr(name), leanStr(val.Name), rep.Name, rec, spec))
+		rowNames = append(rowNames, name)
+	}
+	order := make([]int, len(rows))
+	for i := range order {
+		order[i] = i
+	}
+	sort.SliceStable(order, func(a, b int) bool { return rowNames[order[a]] < rowNames[order[b]] })
+	for k, i := range order {
 		sep := ","
-		if i == len(fd.Elts)-1 {
+		if k == len(order)-1 {
 			sep = ""
 		}
-		fmt.Fprintf(&sb, "  { name := %s, validator := %s, repeatable := %s, recMask := %d, specMask := %d }%s\n",
-			leanStr(name), leanStr(val.Name), rep.Name, rec, spec, sep)
+		sb.WriteString(rows[i] + sep + "\n")
 	}
 	sb.WriteString("]\n\n")
 
